@@ -6,6 +6,11 @@ ALL = ["C%02d" % i for i in range(1, 21)]
 
 # id -> (category, technique, level text, level note, design ref, engine)
 CHECKS = {
+    "C04": ("model_checking",
+            "explicit-state BFS over operation histories executed on the real client.Storage, implementation-dump dedup, list-of-clients reference model checked on every transition",
+            "All histories of add/update(rename, change ids, switch own settings)/remove/DHCP-flip up to depth 3 (quick: 2 names, 8 colliding identifiers incl. nested/unmasked/offset CIDRs, 2 IPs, MAC, ClientID) or 4 (thorough: 3 names, 16 identifiers); after every transition accept/reject, unchanged-on-reject, index-map consistency and every lookup path are compared with the reference.",
+            "between equally specific stored prefixes either owner is accepted; identifiers outside the pool and deeper histories are not covered; runs in-process with 16 worker goroutines (Storage instances are independent).",
+            "DESIGN.md §4 C04", "E1-BFS"),
     "C13": ("exploration",
             "deviation-bounded exhaustive enumeration of documents (base x key path x shape, 0/1/2 deviations) x every split point, against outcome/idempotence/path-independence/loader oracles",
             "Golden inputs of every schema version plus minimal and raw documents; every key path present plus every string literal of later steps placed under root and top-level objects, replaced by 9 shapes (1 deviation in quick, pairs in thorough); list-duplication variants; each migrated in one run and through every split point; no panic, error=>unchanged, stamped, idempotent, split-independent, unrelated key kept, loader accepts valid inputs.",
